@@ -42,4 +42,26 @@ var props = map[string]propDef{
 		Thorough:       budget{Runs: 2000, Chunk: 4, Wall: 40 * time.Minute, PerChunkGrace: 5 * time.Minute},
 		MinimiseBudget: 90 * time.Second,
 	},
+	"C04": {
+		Binary: "dsim-store", Harness: "C04", Level: "fault_enumeration",
+		Rule: "each run = one seeded write history on the real journaling store (index batch size 2-50 so that 0-many index batches and partial trailing batches occur) giving a journal + journal.idx pair; reference = open with no index; then for every index variant {missing, empty, valid, every truncation point, every byte flipped (exhaustive when the index is small, sampled otherwise), random bytes, stale index from each earlier clean close, index of an unrelated journal, checksum-valid-but-wrong (ranges swapped between lookups, offset shifted, length changed), EIO on index reads} the store is opened read-write and read-only (a second opener while another holds the lock) and root + readability/bytes of every chunk of the history are compared with the reference; the read-only open must produce no mutating file operation. One evaluation = one (variant, open mode). All evaluations are non-trivial (each opens a store on damaged input); distinct = distinct (history, variant, mode).",
+		Assumptions: []string{"index contents with checksums recomputed by a forger (address changed or lookup removed, CRC fixed up) are counted as probes, not reported: no accelerator can detect them without re-reading the journal", "the LOCK file being opened O_CREATE by a read-only opener is not counted as modifying 'either file' (journal, index)"},
+		Real:        storeReal, Stub: storeStub, Persistence: "not used (at-rest variants of the index file)",
+		ExhaustiveNote: "per history: all truncation points and one flip per byte when 2*len(index) fits the per-history budget; histories are sampled",
+		ExpectProbes:   []string{"index_batches", "index_partial_trailing_batch", "index:stale", "index:other", "index:swap-ranges", "index:eio", "index_bytes_enumerated_exhaustively", "same_as_no_index:ro"},
+		Quick:          budget{Runs: 32, Chunk: 1, Wall: 150 * time.Second, PerChunkGrace: 120 * time.Second},
+		Thorough:       budget{Runs: 1500, Chunk: 4, Wall: 40 * time.Minute, PerChunkGrace: 5 * time.Minute},
+		MinimiseBudget: 90 * time.Second,
+	},
+	"C10": {
+		Binary: "dsim-store", Harness: "C10", Level: "fault_enumeration",
+		Rule: "each run builds one small valid store directory with the real writers (journal+index+manifest; table files+manifest with tiny memtable; after GC into one table file; after GC into an archive) and picks one storage file; every byte of it is flipped (one mask per byte) and every truncation point applied when the file is small enough for the per-run budget (sampled otherwise), plus 40 multi-byte corruptions and every 4KiB block zeroed. Each damaged directory is opened with the real store and Root, Count, Get, GetMany, GetManyCompressed, HasMany and IterateAllChunks are driven over every stored address and over the addresses that differ from a stored one by the same mask at each byte position. One evaluation = one damaged directory; all are non-trivial; distinct = distinct (fixture, file, corruption).",
+		Assumptions: []string{"a stored chunk answered as absent (without an error) is counted as a probe, not reported: the statement forbids crashes and wrong data, not a miss", "an unbounded loop would surface as the watchdog (exit 2), not as a violation"},
+		Real:        storeReal, Stub: []string{"clock (testing/synctest fake clock)"}, Persistence: "not used (at-rest corruption)",
+		ExhaustiveNote: "per fixture file: every byte flipped once and every truncation point when 2*len(file) fits the budget; fixtures are sampled",
+		ExpectProbes:   []string{"target:journal", "target:table", "target:archive", "target:manifest", "reported_as_error", "read_correctly_despite_damage"},
+		Quick:          budget{Runs: 32, Chunk: 1, Wall: 150 * time.Second, PerChunkGrace: 120 * time.Second},
+		Thorough:       budget{Runs: 1200, Chunk: 4, Wall: 40 * time.Minute, PerChunkGrace: 5 * time.Minute},
+		MinimiseBudget: 20 * time.Second,
+	},
 }
